@@ -98,10 +98,17 @@ func extractSevOvmfMetadata(guidBlockMap map[string][]byte, firmware []byte) ([]
 		return nil, fmt.Errorf("could not extract SEV metadata offset: %v", err)
 	}
 	offset := int(metadataOffset.Offset)
+	if offset < abi.SizeofSevMetadata {
+		return nil, fmt.Errorf("SEV OVMF Metadata Offset is too small to contain the metadata header: %d < %d",
+			offset, abi.SizeofSevMetadata)
+	}
 	if len(firmware) < offset {
 		return nil, fmt.Errorf("firmware is too small: found size %d < %d", len(firmware), offset)
 	}
 	sevMetadata := abi.SevMetadataFromBytes(firmware[len(firmware)-offset:])
+	if sevMetadata == nil {
+		return nil, fmt.Errorf("firmware is too small for the SEV metadata header at offset %d", offset)
+	}
 
 	if sevMetadata.Signature != abi.SevSnpMetadataSignature {
 		return nil, fmt.Errorf("the signature of the SEV memory offset is incorrect: %v",
@@ -111,7 +118,8 @@ func extractSevOvmfMetadata(guidBlockMap map[string][]byte, firmware []byte) ([]
 	// The length of each section is expected to be 12, The length of the
 	// offset is expected to be 16. Given the fact that we have both "length"
 	// and "sections" we can verify those fields against each other
-	if sevMetadata.Length != sevMetadata.Sections*abi.SizeofSevMetadataSection+abi.SizeofSevMetadata {
+	// 64-bit arithmetic: a large section count must not wrap the consistency check.
+	if uint64(sevMetadata.Length) != uint64(sevMetadata.Sections)*abi.SizeofSevMetadataSection+abi.SizeofSevMetadata {
 		return nil, fmt.Errorf("mismatch between SEV memory offset length: %d and SEV metadata offset sections count: %d",
 			sevMetadata.Length, sevMetadata.Sections)
 	}
@@ -127,6 +135,9 @@ func extractSevOvmfMetadata(guidBlockMap map[string][]byte, firmware []byte) ([]
 	metadataStart := len(firmware) - int(metadataOffset.Offset) + abi.SizeofSevMetadata
 	for it := 0; it < int(sevMetadata.Sections); it++ {
 		singleBlock := abi.SevMetadataSectionFromBytes(firmware[metadataStart+it*abi.SizeofSevMetadataSection:])
+		if singleBlock == nil {
+			return nil, fmt.Errorf("firmware is too small for SEV metadata section %d", it)
+		}
 
 		metadataSections = append(metadataSections,
 			abi.SevMetadataSection{Address: singleBlock.Address,
